@@ -206,6 +206,15 @@ def corpus(rng):
             inter40 = make_interactions(rng, 40, "simulated", "dense")
             cs.append((dict(filter="reservoir", params=dict(n=n, strict=False, seed=seed), N=40, kind="simulated", ctx="dense", seed=seed), inter40,
                        F.Reservoir(n, seed=seed), [4, [n], False, 40, c05.enc_seed(seed), [opt(s) for s in reservoir_skips(seed, n, 40)]]))
+    # the largest generator state at one of the first draws (the uniform draw closest to 1): Shuffle and Reservoir stay inside their index ranges
+    top = 2**30 - 1
+    for k in range(5):
+        seed = c05.seed_for(top, k)
+        inter8 = make_interactions(rng, 8, "simulated", "dense")
+        cs.append((dict(filter="shuffle", params=dict(seed=seed), N=8, kind="simulated", ctx="dense", seed=seed), inter8, F.Shuffle(seed), [1, 8, c05.enc_seed(seed)]))
+        inter40 = make_interactions(rng, 40, "simulated", "dense")
+        cs.append((dict(filter="reservoir", params=dict(n=3, strict=False, seed=seed), N=40, kind="simulated", ctx="dense", seed=seed), inter40,
+                   F.Reservoir(3, seed=seed), [4, [3], False, 40, c05.enc_seed(seed), [opt(x) for x in reservoir_skips(seed, 3, 40)]]))
     return cs
 
 def run(ctx):
